@@ -531,7 +531,25 @@ def r05_8_param_accessors(ctx):
                     if want_t and declared != want_t:
                         problems.append(f"declares the value as {declared}; the AVM field `{field}` is {want_t}")
                 ctx.check(not problems, "R05.8", construct, "; ".join(problems), f"{f.module.rel}:{call.lineno}", fact={"field": field, "declared": declared})
-    ctx.require_min("R05.8", 20)
+    # every stack operand handed to a MaybeValue / MultiValue is type-checked first: the op pops it whatever it is
+    m_ops = 0
+    for f in ctx.model.iter_funcs():
+        if not f.module.name.startswith("pyteal.ast") or f.module.name.endswith("_test"):
+            continue
+        for call in walk_local(f.node):
+            if not (isinstance(call, ast.Call) and u(call.func) in ("MaybeValue", "MultiValue")):
+                continue
+            argl = next((k.value for k in call.keywords if k.arg == "args"), None)
+            if not isinstance(argl, ast.List):
+                continue
+            checked = {u(c.args[0]): u(c.args[1]) for c in q.calls_named(f.node, "require_type", into_nested=False) if len(c.args) >= 2 and c.lineno <= call.lineno}
+            for el in argl.elts:
+                if not isinstance(el, ast.Name):
+                    continue
+                m_ops += 1
+                ctx.check(el.id in checked, "R05.8", f"{f.qualname}:operand `{el.id}`", f"`{el.id}` is pushed as a stack operand of {u(call.args[0]) if call.args else 'the op'} without a require_type on it: an expression of type none (a store, a Seq without value) pushes nothing, and the op pops what is not there", f"{f.module.rel}:{call.lineno}", fact={"checked_as": checked.get(el.id)})
+    q.need(m_ops >= 25, f"only {m_ops} MaybeValue / MultiValue operands found")
+    ctx.require_min("R05.8", 45)
 
 
 def run(ctx):  # noqa: F811
